@@ -260,6 +260,7 @@ fn cfg_strategy(pr: &Profile) -> BoxedStrategy<NodeCfg> {
                 delete_oldest: size_limit && del_old,
                 validate_checksum: false,
                 http: false,
+                jwt_never_expire: false,
                 rt_workers: 2,
             }
         })
